@@ -477,10 +477,11 @@ def violations_of(S, lo, hi):
 PRE = {}   # line index -> context printed by the harness before a seek/read ran (for crash signatures)
 
 
-def sig_of(line, codes, idx=None):
+def sig_of(line, codes, idx=None, pre=None):
     s = "%s:%s" % (line.split()[0], "+".join(CLAUSE.get(c, c) for c in codes))
-    if codes == ["9"] and idx in PRE:
-        s += ":" + PRE[idx].replace(" ", ":")
+    pre = PRE if pre is None else pre
+    if codes == ["9"] and idx in pre:
+        s += ":" + pre[idx].replace(" ", ":")
     return s
 
 
@@ -513,11 +514,11 @@ def shrink(ctx, hist, want_sig, limit=60):
     return cur
 
 
-def report(ctx, hist, flat, R, S, lo, hi, seen_sigs, budget):
+def report(ctx, hist, flat, R, S, lo, hi, seen_sigs, budget, pre):
     """turn the violations of one history into VIOLATION / KNOWN-FINDING lines"""
     vs = violations_of(S, lo, hi)
     for i, codes in vs:
-        sig = sig_of(flat[i], codes, i)
+        sig = sig_of(flat[i], codes, i, pre)
         if sig in seen_sigs:
             continue
         seen_sigs.add(sig)
@@ -550,6 +551,7 @@ def run(ctx):
     kinds = ["corpus"] * len(corpus) + [g[2] for g in gen]
     invs = [None] * len(corpus) + [g[1] for g in gen]
     flat, R, S = run_histories(ctx, hists, "main")
+    pre_main = dict(PRE)
     opmix, rcmix = {}, {"ok": 0, "fail": 0, "na": 0}
     mut_exec, mut_failed, nviol_h = 0, 0, 0
     pos = 0
@@ -585,7 +587,7 @@ def run(ctx):
                  if len(ctx.coverage["samples"]) < 3 else None)
         if violations_of(S, lo, hi):
             nviol_h += 1
-            report(ctx, h, flat, R, S, lo, hi, seen, budget)
+            report(ctx, h, flat, R, S, lo, hi, seen, budget, pre_main)
     ctx.corr("R~ROSpec", histories=len(hists), corpus_histories=len(corpus), operations=len(flat),
              ro_histories=kinds.count("ro"), rw_noedit_histories=kinds.count("rw"), op_mix_after_snapshot=opmix,
              result_classes=rcmix, mutators_executed_read_only=mut_exec, mutators_refused=mut_failed,
